@@ -6,6 +6,7 @@ import GeosModel.Model.Relate.Ref
 import GeosModel.Model.Buffer.Fillet
 import GeosModel.Model.Buffer.Params
 import GeosModel.Model.Buffer.Spec
+import GeosModel.Model.Buffer.Rings
 /-!
 Driver for C06.
 
@@ -13,6 +14,8 @@ Driver for C06.
   driver scales everything to integers, builds exact rational sample locations, asks the specification
   (`Model/Buffer/Spec.lean`) whether each location must be inside / outside, decides membership in the RETURNED
   geometry exactly (even–odd over homogeneous points) and reports the first contradiction.
+* stream `rings`: noded edge sets with result flags; the rings `Model/Buffer/Rings.lean` assembles (as directed-edge cycles with
+  their shell / hole flag) against MaximalEdgeRing / MinimalEdgeRing called directly and against PolygonBuilder's polygons.
 * stream `fillet`: `nSegs` / number of emitted arc vertices of `addDirectedFillet` against `Model/Buffer/Fillet.lean`.
 * stream `params`: accept / reject and stored / effective parameters against `Model/Buffer/Params.lean`.
 -/
@@ -456,6 +459,45 @@ def checkFillet (line : String) : String :=
     | none => "parse-error"
   | _ => "bad-line"
 
+/-! ### stream rings: `G | k x0 y0 … f b | …` → `S:ids;H:ids;… | same` -/
+
+def parseREdge (ts : List String) : Option Rings.REdge :=
+  match ts.mapM String.toInt? with
+  | some (k :: rest) =>
+    let n := k.toNat
+    if rest.length != 2 * n + 2 || n < 2 then none else
+    let rec pts : Nat → List Int → List Pt
+      | 0, _ => []
+      | m + 1, x :: y :: r => ⟨x, y⟩ :: pts m r
+      | _, _ => []
+    let fl := rest.drop (2 * n)
+    some { pts := pts n rest, fwd := fl[0]? == some 1, bwd := fl[1]? == some 1 }
+  | _ => none
+
+def canonRing (g : Rings.Graph) (r : List Nat) : String :=
+  let m := r.foldl min (r.headD 0)
+  let i := (r.findIdx? (· == m)).getD 0
+  (if Rings.isHole g r then "H:" else "S:") ++ ",".intercalate ((r.drop i ++ r.take i).map toString)
+
+def checkRings (line : String) : String :=
+  match splitBar (Driver.tokens line) with
+  | ["G"] :: es =>
+    match (es.filter fun p => p.head? != some "T").mapM parseREdge with
+    | some edges =>
+      let g : Rings.Graph := { edges := edges.toArray }
+      if !Rings.linksInjective g then "links-not-injective" else
+      let sorted (l : List String) : List String := (l.toArray.qsort (· < ·)).toList
+      let dash (l : List String) : String := if l.isEmpty then "-" else ";".intercalate l
+      let direct := match Rings.assemble g with
+        | none => "throw"
+        | some rs => dash (sorted (rs.map (canonRing g)))
+      let built := match Rings.polygons g with
+        | none => "throw"
+        | some ps => dash (sorted (ps.map fun p => canonRing g p.shell ++ "[" ++ "/".intercalate (sorted (p.holes.map (canonRing g))) ++ "]"))
+      direct ++ " | " ++ built
+    | none => "parse-error"
+  | _ => "bad-line"
+
 /-! ### stream params -/
 
 def parseSetter : List String → Option Setter
@@ -523,8 +565,9 @@ end Driver.C06
 
 def main (args : List String) : IO UInt32 := do
   match args with
-  | ["buffer"] => Driver.loop (← IO.getStdin) (← IO.getStdout) (Driver.C06.checkBuffer false); return 0
+  | ["buffer"] | ["contact"] => Driver.loop (← IO.getStdin) (← IO.getStdout) (Driver.C06.checkBuffer false); return 0
   | ["buffer-stats"] => Driver.loop (← IO.getStdin) (← IO.getStdout) (Driver.C06.checkBuffer true); return 0
+  | ["rings"] => Driver.loop (← IO.getStdin) (← IO.getStdout) Driver.C06.checkRings; return 0
   | ["fillet"] => Driver.loop (← IO.getStdin) (← IO.getStdout) Driver.C06.checkFillet; return 0
   | ["params"] => Driver.loop (← IO.getStdin) (← IO.getStdout) Driver.C06.checkParams; return 0
   | _ => IO.eprintln "usage: drv_c06 buffer|fillet|params"; return 2
